@@ -19,7 +19,8 @@ RULE = ("(1) per-draw validity on hostile parameter sets (custom: large deviatio
         ">= 1500 draws per benign parameter set (generation order == sorted order): unit counts against the exact pmf "
         "of |trunc N|, gaps and durations by mean / variance z-tests, categories by chi-square, all at 6 sigma / "
         "p < 1e-9; (3) init_sampling(reference): held parameters against an independent re-measurement of the reference; (4) histories: the "
-        "same sampler object initialised another way (reference / custom with weights, with or without draws) before the judged initialisation; "
+        "same sampler object initialised another way (reference / custom with weights, with or without draws; then possibly an initialisation on the judged "
+        "reference object that is refused for an unknown annotator) before the judged initialisation; "
         "(5) one sampler object drawn from by 2-8 user threads at once under a law without dispersion for gaps and durations (every annotator "
         "of every sample must be the same arithmetic progression). "
         "non-trivial = every parameter set; distinct by SHA-1 of the parameter set / reference")
@@ -53,8 +54,12 @@ def rng_spy():
     return _rs["spy"]
 
 
+_shared = {}
+
+
 def make_sampler(case):
     import pygamma_agreement as pa
+    _shared.clear()
     s = pa.StatisticalContinuumSampler()
     prior = case.get("prior_init")
     if prior:
@@ -67,6 +72,14 @@ def make_sampler(case):
             s.init_sampling(cases.build_continuum(prior["continuum"]))
         for _ in range(int(prior.get("draws", 0))):
             s.sample_from_continuum
+        if prior.get("then_refused") and case["init"] == "reference":
+            # ... and then an initialisation on the judged reference that is refused for its ground truth (the caller catches the
+            # error and calls again with valid annotators: that second call is the judged one)
+            _shared["continuum"] = cases.build_continuum(case["continuum"])      # the very object of the judged call
+            try:
+                s.init_sampling(_shared["continuum"], ["no such annotator"])
+            except AssertionError:
+                pass
     if case["init"] == "custom":
         p = case["params"]
         if case.get("caller_arrays"):
@@ -87,7 +100,7 @@ def make_sampler(case):
         cats = list(p["categories"])
         continuum = None
     else:
-        continuum = cases.build_continuum(case["continuum"])
+        continuum = _shared.pop("continuum", None) or cases.build_continuum(case["continuum"])
         gt = case.get("ground_truth")
         if case.get("vanished_label") and continuum.num_units:
             # a label that was used once and whose units are all gone again (a relabelling): the continuum still lists it
@@ -564,7 +577,9 @@ def run(ctx):
             plan_.append({"init": "custom", "params": params, "benign": False, "draws": 40, "prior_init": prior})
         else:
             cspec = cases.gen_continuum(rng, n_annot=3, max_units=6, min_total=3, allow_empty=False, labels=cases.LABELS_WORDS[:5])
-            plan_.append({"init": "reference", "continuum": cspec, "ground_truth": None, "benign": False, "draws": 40, "prior_init": prior})
+            prior["then_refused"] = rng.random() < 0.5
+            plan_.append({"init": "reference", "continuum": cspec, "ground_truth": None, "benign": False, "draws": 40, "prior_init": prior,
+                          "same_object_refused": prior["then_refused"]})
     # one sampler object, several user threads drawing at once, a law without dispersion for gaps and durations
     for _ in range(ctx.scale(3, 40)):
         params = benign_custom(rng)
